@@ -3,9 +3,9 @@
 Round trip: for every project of the C11/C12 family (singles and pairs, with privacy rules) the objects.inv written by the
 real driver is loaded by pydoctor's SphinxInventory reader (bytes served through a stub cache) and by Sphinx'
 InventoryFile: exactly one entry per visible object reachable through contents, mapped to base + obj.url.
-Robustness (fault enumeration on the byte string): every truncation point, every single-byte substitution from a 6-byte
+Robustness (fault enumeration on the byte string): every truncation point, every single-byte substitution from a 7-byte
 alphabet in header and payload, header line deletions/duplications, wrong-compression variants, URL shapes, and every
-payload line of up to 6 columns over a 7-token column alphabet inserted between two control lines.
+payload line of up to 6 columns over a 9-token column alphabet inserted between two control lines.
 Oracle: update() returns, the control lines still resolve, rejected lines are reported, non-py lines are skipped silently.
 """
 from __future__ import annotations
@@ -22,8 +22,8 @@ from mc import core, pd, site
 ID = 'C17'
 LEVEL = 'fault_enumeration'
 RULE = ('round trip: one full driver run per project (feature singles and pairs x privacy rules), inventory read back by two readers; robustness: '
-        'exhaustive single-fault mutations of a 6-line inventory (every truncation, every byte x 6 substitutes, header edits, body encodings, '
-        'every line <= 6 columns over 7 column tokens); a fault case is non-trivial when the mutated inventory differs from the valid one in what it '
+        'exhaustive single-fault mutations of a 6-line inventory (every truncation, every byte x 7 substitutes, header edits, body encodings, '
+        'every line <= 6 columns over 9 column tokens); a fault case is non-trivial when the mutated inventory differs from the valid one in what it '
         'yields (lines dropped/changed or a message reported); distinct = distinct mutated byte strings')
 ASSUMPTIONS = [
     'which malformed lines are accepted is not prescribed; only: no exception, control lines resolve, rejected lines are reported',
@@ -31,7 +31,7 @@ ASSUMPTIONS = [
     'Sphinx 9.1 InventoryFile.loads is the second reader',
 ]
 FLOOR = {'quick': 1000, 'thorough': 5000}
-SPACE = {'quick': 'round trip: feature singles x {default, 2 privacy variants} + pairs; robustness: all truncations, all byte substitutions (6 substitutes), header edits, 8 body variants, all lines <= 5 columns',
+SPACE = {'quick': 'round trip: feature singles x {default, 2 privacy variants} + pairs; robustness: all truncations, all byte substitutions (7 substitutes), header edits, 8 body variants, all lines <= 5 columns',
          'thorough': 'round trip: pairs x privacy variants; robustness: lines <= 6 columns, pairs of substitutions in one payload line'}
 JOB_TIMEOUT = 2300
 
@@ -39,8 +39,8 @@ HEADER = b'# Sphinx inventory version 2\n# Project: x\n# Version: 1\n# The remai
 CTRL1 = 'ctrl.one py:class -1 ctrl.one.html -\n'
 CTRL2 = 'ctrl.two py:function 1 ctrl.html#two Display name\n'
 BASE_LINES = [CTRL1, 'some.mod py:module 0 some.mod.html -\n', 'a label std:label -1 page.html#a-label A Label\n', 'm.f py:method 1 m.html#$ -\n', CTRL2]
-SUBS = [b'\x00', b'\n', b'#', b' ', b'\xff', b'x']
-COLS = ['name', 'py:class', 'std:label', '-1', '1', '-', '']
+SUBS = [b'\x00', b'\n', b'#', b' ', b'\xff', b'x', b'%']
+COLS = ['name', 'py:class', 'std:label', '-1', '1', '-', '', 'caf%C3%A9.html#%s', '%(k)d%']
 
 
 class Cache:
@@ -141,11 +141,14 @@ def robustness(part: str, res: Dict[str, Any], tier: str) -> None:
             fault('header-line-removed', b'\n'.join(hl[:i] + hl[i + 1:]) + b'\n' + zlib.compress(pl), res, True, i)
             fault('header-line-duplicated', b'\n'.join(hl[:i + 1] + hl[i:]) + b'\n' + zlib.compress(pl), res, True, i)
         fault('no-header', zlib.compress(pl), res, True, '')
-        for url in ('objects.inv', 'http://h/objects.inv', '', 'http://h/', 'h/o'):
+        for url in ('objects.inv', 'http://h/objects.inv', '', 'http://h/', 'h/o', 'http://h/%7Euser/objects.inv', 'http://h/%s/%(k)d/objects.inv', '%'):
             fault('url', GOOD, res, url == 'http://h/objects.inv', url, url)
+            # the same addresses serving an inventory with a malformed line: the report mentions the address and the line
+            fault('url+malformed-line', HEADER + zlib.compress((CTRL1 + 'short%line 100%\n' + CTRL2).encode()), res, url == 'http://h/objects.inv', url, url)
     elif part.startswith('lines'):
         L = int(part.split(':')[1])
-        for cols in itertools.product(COLS, repeat=L):
+        firsts = [COLS[int(part.split(':')[2])]] if part.count(':') == 2 else None
+        for cols in (itertools.product(COLS, repeat=L) if firsts is None else itertools.product(firsts, *([COLS] * (L - 1)))):
             line = ' '.join(cols) + '\n'
             data = HEADER + zlib.compress((CTRL1 + line + CTRL2).encode())
             res['evals'] += 1
@@ -251,7 +254,11 @@ def jobs(tier: str) -> Iterable[Tuple[str, Any]]:
         yield ('robust:payload-bytes', ('robust', f'subst-payload:{i}'))
     yield ('robust:bodies-headers-urls', ('robust', 'bodies'))
     for L in range(0, 6 if tier == 'quick' else 7):
-        yield (f'robust:lines<={L}', ('robust', f'lines:{L}'))
+        if L < 4:
+            yield (f'robust:lines<={L}', ('robust', f'lines:{L}'))
+        else:
+            for i in range(len(COLS)):
+                yield (f'robust:lines<={L}', ('robust', f'lines:{L}:{i}'))
     for f in site.NAMES:
         yield ('roundtrip:singles', ('rt', [f], 'all'))
     for f in site.NAMES:
